@@ -76,7 +76,7 @@ class Realisation:
     without any input gets a private external input ``p{i}``.
     """
 
-    def __init__(self, n: int, edges, two_out=None, x_nodes=()):
+    def __init__(self, n: int, edges, two_out=None, x_nodes=(), opt=None):
         self.n = n
         self.two_out = [bool(two_out[i]) if two_out else False for i in range(n)]
         self.outs = [[f"v{i}"] + ([f"w{i}"] if self.two_out[i] else []) for i in range(n)]
@@ -102,6 +102,16 @@ class Realisation:
                 ins[i].append(f"p{i}")
                 self.external.append(f"p{i}")
         self.ins = ins
+        # optional inputs: ``opt`` (0/1 flags) is cycled over the (consumer, input name) pairs in node order; a flagged
+        # input is NOT required by the consumer's grammar (it has a default value); the graph is the same
+        self.optional: set[tuple[int, str]] = set()
+        if opt:
+            k = 0
+            for j in range(n):
+                for name in ins[j]:
+                    if int(opt[k % len(opt)]):
+                        self.optional.add((j, name))
+                    k += 1
         self.producer = {name: i for i in range(n) for name in self.outs[i]}
         # adjacency derived from the names (this is the graph the property quantifies over)
         self.adj = [[False] * n for _ in range(n)]
@@ -129,14 +139,13 @@ class Realisation:
 
     # ---- coupling sets: (lower bound, upper bound) under every reading of the docstrings
     def strong_couplings_bounds(self):
-        low, up = set(), set()
+        """A strong coupling is exchanged between members of one group: consumed inside its producer's own cycle (or by
+        its producer itself).  A variable flowing from one cycle to ANOTHER group is a feed-forward coupling."""
+        exact = set()
         for name, i in self.producer.items():
-            cons = self.consumers(name)
-            if any(self.comp[j] == self.comp[i] for j in cons):  # consumed inside its own cycle (or by itself)
-                low.add(name)
-            if self.is_strong(i) and any(self.is_strong(j) for j in cons):
-                up.add(name)
-        return low, up
+            if any(self.comp[j] == self.comp[i] for j in self.consumers(name)):
+                exact.add(name)
+        return exact, set(exact)
 
     def weak_couplings_bounds(self):
         low, up = set(), set()
@@ -166,15 +175,19 @@ def graph_disciplines(real: Realisation, dup_names: bool = False):
         default_grammar_type = Discipline.GrammarType.SIMPLE
         default_cache_type = Discipline.CacheType.NONE
 
-        def __init__(self, name, ins, outs):
+        def __init__(self, name, node):
             super().__init__(name)
-            self.io.input_grammar.update_from_names(ins)
-            self.io.output_grammar.update_from_names(outs)
+            self.io.input_grammar.update_from_names(real.ins[node])
+            self.io.output_grammar.update_from_names(real.outs[node])
+            for name_ in real.ins[node]:
+                if (node, name_) in real.optional:
+                    self.io.input_grammar.defaults[name_] = np.zeros(1)
+                    self.io.input_grammar.required_names.remove(name_)
 
         def _run(self, input_data):  # pragma: no cover - never executed
             return {}
 
-    return [_Node("D" if dup_names else f"D{i}", real.ins[i], real.outs[i]) for i in range(real.n)]
+    return [_Node("D" if dup_names else f"D{i}", i) for i in range(real.n)]
 
 
 # --------------------------------------------------------------------------- linear semantics (C08)
@@ -262,6 +275,8 @@ class LinearSystem:
                 for u in real.ins[node]:
                     if coupling_defaults or u not in system.offset:
                         self.io.input_grammar.defaults[u] = np.zeros(system.size[u])
+                        if (node, u) in real.optional:
+                            self.io.input_grammar.required_names.remove(u)
                 self.n_runs = 0
 
             def _run(self, input_data):
